@@ -71,6 +71,9 @@ func parseCaddyfile(h httpcaddyfile.Helper) (caddyhttp.MiddlewareHandler, error)
 				return nil, h.Err("defaults already defined")
 			}
 			handler.Defaults = h.RemainingArgs()
+			if len(handler.Defaults) > len(handler.Destinations) {
+				return nil, h.Err("too many defaults")
+			}
 			for len(handler.Defaults) < len(handler.Destinations) {
 				handler.Defaults = append(handler.Defaults, "")
 			}
